@@ -329,7 +329,10 @@ EXTRA = {
     'C04': ' Further: registry containers live as long as the bus (C04.8); shape analysis of the list primitives the '
            'owner queue is edited with (C04.9).',
     'C05': ' Further: routing state containers are never recreated (C05.7), list primitives keep the ring (C05.8), the '
-           'gate is told every party (C05.9).',
+           'gate is told every party (C05.9); list operations decided on all small lists (C05.11); back-pressure '
+           'counters notify on crossings (C05.12); errno predicates (C05.13); the destination is read from a fresh '
+           'field cache (C05.14).',
+    'C20': ' Further: a refused registration only warns -- the warning helpers consult their own switch (C20.11).',
     'C06': ' Further: every DBusConnection parameter of a gate caller is one of the gate\'s parties (C06.10); rule '
            'destination / origin are compared through destination / sender accessors (C06.11); the expiry timer wakes '
            'for the slot due first, which bounds how long a reply counts as requested (C06.13); the peer\'s group list '
@@ -367,7 +370,7 @@ EXTRA = {
            '(C17.10); hash front ends convert keys alike (C17.11); callbacks get the data registered with them (C17.12).',
     'C18': ' Further: capture and route name the same parties (C18.8); a name in a monitor\'s filter stands for its '
            'primary owner only (C18.9); counters notify on crossings (C18.10); list operations incl. copy under failing '
-           'allocations (C18.11).',
+           'allocations (C18.11); what monitors are shown is behind the sender stamp (C18.12).',
     'C08': ' Further: every parser field an element handler sets is merged from included files (C08.7); the cookie '
            'response is compared as a whole (C08.11); cookie ages use the wall clock (C08.12).',
     'C19': ' Further: pending activations survive reload (C19.6); a held request\'s connection is used only while '
